@@ -10,6 +10,9 @@
 //     analysed package -> Acq / Rel of "pkg.Type.field" in write / read mode; `defer` of those -> Defer.
 //   * every selector that resolves to a (possibly promoted) field of such a struct -> Rd "pkg.Type.field";
 //     assignment / IncDec / delete / copy / clear targets -> Wr (instance-insensitive: every instance of T.f is one field).
+//   * reference aliasing (flow-insensitive, per function): a local variable that is assigned the value of a map-, slice-,
+//     pointer- or chan-typed tracked field stands for that field: every later use of the local is Rd of the field, index
+//     assignment / delete / copy / clear / IncDec through it is Wr of the field.
 //   * calls: functions and methods of analysed packages -> Call; methods of interfaces declared in analysed packages,
 //     io.Writer and the kms Wrapper -> User "Iface.Method"; func-typed fields -> Rd + User "func:field"; func-typed
 //     variables -> User "funcval"; arguments of interface types Node / io.Writer / Wrapper / Sender handed to code
@@ -67,6 +70,8 @@ type tr struct {
 	// index in the output of the last translated call at which the call's own effects start (after the
 	// evaluation of its arguments and receiver); used to split a deferred call
 	effectStart int
+	// locals of the enclosing declared function that hold the value of a reference-typed tracked field
+	alias map[types.Object]string
 }
 
 type output struct {
@@ -273,6 +278,12 @@ func (t *tr) fieldOf(e ast.Expr, out *[]string) (string, bool) {
 
 // the field an assignment / delete / copy target designates (x.f, x.f[i], *x.f, x.f[i].g is NOT x.f)
 func (t *tr) lvalField(e ast.Expr, out *[]string) (string, ast.Node, bool) {
+	return t.lvalFieldX(e, out, false)
+}
+
+// inner: the expression is reached through an index / dereference / slice (or is the target of delete / copy / clear), so a
+// local that aliases a reference-typed field designates the field's content
+func (t *tr) lvalFieldX(e ast.Expr, out *[]string, inner bool) (string, ast.Node, bool) {
 	switch v := e.(type) {
 	case *ast.SelectorExpr:
 		t.expr(v.X, out)
@@ -280,13 +291,18 @@ func (t *tr) lvalField(e ast.Expr, out *[]string) (string, ast.Node, bool) {
 		return f, v, ok
 	case *ast.IndexExpr:
 		t.expr(v.Index, out)
-		return t.lvalField(v.X, out)
+		return t.lvalFieldX(v.X, out, true)
 	case *ast.StarExpr:
-		return t.lvalField(v.X, out)
+		return t.lvalFieldX(v.X, out, true)
 	case *ast.ParenExpr:
-		return t.lvalField(v.X, out)
+		return t.lvalFieldX(v.X, out, inner)
 	case *ast.SliceExpr:
-		return t.lvalField(v.X, out)
+		return t.lvalFieldX(v.X, out, true)
+	case *ast.Ident:
+		if fl, ok := t.aliasOf(v); ok && inner {
+			return fl, v, true
+		}
+		return "", nil, false
 	}
 	t.expr(e, out)
 	return "", nil, false
@@ -316,6 +332,69 @@ func ifaceName(ty types.Type) (string, bool) {
 	return "", false
 }
 
+func isRefType(ty types.Type) bool {
+	switch types.Unalias(ty).Underlying().(type) {
+	case *types.Map, *types.Slice, *types.Pointer, *types.Chan:
+		return true
+	}
+	return false
+}
+
+// collectAliases: x := s.f / x = s.f / var x = s.f with f a tracked field of map, slice, pointer or chan type
+func (t *tr) collectAliases(body ast.Node) {
+	t.alias = map[types.Object]string{}
+	bind := func(lhs ast.Expr, rhs ast.Expr) {
+		id, ok := ast.Unparen(lhs).(*ast.Ident)
+		if !ok || id.Name == "_" {
+			return
+		}
+		se, ok := ast.Unparen(rhs).(*ast.SelectorExpr)
+		if !ok {
+			return
+		}
+		fl, ok := t.fieldOf(se, nil)
+		if !ok || !isRefType(t.info.TypeOf(se)) {
+			return
+		}
+		obj := t.info.Defs[id]
+		if obj == nil {
+			obj = t.info.Uses[id]
+		}
+		if obj != nil {
+			t.alias[obj] = fl
+		}
+	}
+	ast.Inspect(body, func(n ast.Node) bool {
+		switch v := n.(type) {
+		case *ast.AssignStmt:
+			if len(v.Lhs) == len(v.Rhs) {
+				for i := range v.Lhs {
+					bind(v.Lhs[i], v.Rhs[i])
+				}
+			}
+		case *ast.ValueSpec:
+			if len(v.Names) == len(v.Values) {
+				for i := range v.Names {
+					bind(v.Names[i], v.Values[i])
+				}
+			}
+		}
+		return true
+	})
+}
+
+func (t *tr) aliasOf(e ast.Expr) (string, bool) {
+	id, ok := ast.Unparen(e).(*ast.Ident)
+	if !ok || t.alias == nil {
+		return "", false
+	}
+	if obj := t.info.Uses[id]; obj != nil {
+		fl, ok := t.alias[obj]
+		return fl, ok
+	}
+	return "", false
+}
+
 // expression -> program terms in evaluation order
 func (t *tr) expr(e ast.Node, out *[]string) {
 	if e == nil {
@@ -338,6 +417,10 @@ func (t *tr) expr(e ast.Node, out *[]string) {
 				}
 				return false
 			}
+		case *ast.Ident:
+			if fl, ok := t.aliasOf(v); ok {
+				t.rd(v, fl, out, false)
+			}
 		case *ast.KeyValueExpr:
 			// composite literal: the key is a field name of a fresh object, only the value is evaluated
 			if _, isIdent := v.Key.(*ast.Ident); isIdent {
@@ -352,7 +435,7 @@ func (t *tr) expr(e ast.Node, out *[]string) {
 func (t *tr) closure(fl *ast.FuncLit) {
 	t.nlit++
 	name := fmt.Sprintf("%s$lit%d", t.base, t.nlit)
-	sub := &tr{p: t.p, info: t.info, fset: t.fset, fn: name, out: t.out, base: name}
+	sub := &tr{p: t.p, info: t.info, fset: t.fset, fn: name, out: t.out, base: name, alias: t.alias}
 	body := sub.block(fl.Body)
 	t.out.addFunc(name, body, true, t.fset.Position(fl.Pos()).String())
 	if len(sub.rops) > 0 {
@@ -518,7 +601,7 @@ func (t *tr) call(c *ast.CallExpr, out *[]string) {
 			case "delete", "copy", "clear":
 				if len(c.Args) > 0 {
 					var scratch []string
-					if fl, n, ok := t.lvalField(c.Args[0], &scratch); ok {
+					if fl, n, ok := t.lvalFieldX(c.Args[0], &scratch, true); ok {
 						t.wr(n, fl, out)
 					}
 				}
@@ -871,6 +954,7 @@ func main() {
 					}
 				}
 				t := &tr{p: p, info: p.TypesInfo, fset: fset, fn: name, out: out, base: name}
+				t.collectAliases(fd.Body)
 				body := t.block(fd.Body)
 				out.addFunc(name, body, exported, fset.Position(fd.Pos()).String())
 				if len(t.rops) > 0 {
